@@ -395,21 +395,9 @@ def deletion_triggers(m, kind, target, extra=None):
     kind: 'cells' (target = cells: none known), 'space' (target = space), 'bases' (target = space losing bases).
     (The lazy-namespace case 'stale_ns' - an ItemSpace holding a copy of a re-inherited space - was dropped:
     since a66156d on_inherit discards those ItemSpaces unconditionally, as the model does.)"""
-    trig = set()
-    if kind == "space":
-        tree = static_tree(target)
-        if any(subs_of(m, t) for t in tree[1:]):
-            trig.add("C13a")
-        if any(any(t is u for u in tree) for t in subs_of(m, target)):
-            trig.add("C13e")
-    if kind in ("space", "bases"):
-        # D3: the re-derivation after remove_bases / del space walks the old graph breadth first; a space that
-        # inherits from the edited one along two routes can be visited before one of its bases (IndexError)
-        subs = subs_of(m, target)
-        for t in subs:
-            if sum(1 for b in t._direct_bases if b is target or any(b is u for u in subs)) >= 2:
-                trig.add("D3")
-    return trig
+    # C13a (sub spaces of the child spaces of a deleted space not re-derived), C13e (a sub space inside the deleted
+    # tree) and D3 (re-derivation order) are repaired in /repo: such deletions are generated
+    return set()
 
 
 def gen_op(rng, m, H, ftab, profile, filtered, avoid):
